@@ -8,6 +8,7 @@ after `Sieve.sieveBlock`), `hitSum hits x` the total added at position `x`, `byt
 import Ymq.Lemmas.SieveLogCover
 import Ymq.Lemmas.SieveTableExact
 import Ymq.Lemmas.SieveLogTables
+import Ymq.Lemmas.SieveShapeClosed
 import Ymq.Props.C13
 
 namespace Ymq.C13
@@ -427,6 +428,191 @@ theorem accumulator_no_overflow_tables (fb : FB) (hfb : fb.WF) (r1 r2 : Array Na
   intro x hx
   rw [e3 x, hitSum_append, htab x hx, class_loops_cover fb hfb r1 r2 hr offset nblocks recycled hrecOK s0 s1 s h0 b h1
     h2 nS hnS l hl x hx]
+
+/-- helper: the table term for ANY factor-base size on the path `new → rounds → sieve_block`: at most the closed form,
+and equal to it when no table has lost an entry. -/
+theorem tableHits_closed_gen {fb : FB} (hfb : fb.WF) {r1 r2 : Array Nat} (hr : RootsOK fb r1 r2)
+    (hd : RootsDistinct fb r1 r2) {offset : Int} {nblocks : Nat} {recycled : Option (Array Table × Array LTable)}
+    (hrec : RecycledLens nblocks recycled)
+    {s0 s1 s : State} (h0 : Sieve.new offset nblocks fb r1 r2 recycled = some s0)
+    {b : Nat} (hb : b < nblocks) (h1 : runBlocks fb b s0 = some s1) (h2 : sieveBlock fb s1 = some s)
+    {nS : Nat} (hnS : fb.ibl[16]? = some nS) {th : List (Nat × Nat)} (hth : tableHits s = some th) :
+    ∀ x, x < 32768 →
+      hitSum th x ≤ rangeSum (tabF fb r1 r2 (nblocks * BLOCK) (b * BLOCK + x)) nS (fb.primes.size - nS) ∧
+      ((∀ (ti : Nat) (t : Table), s.tables[ti]? = some t → t.nOverflows = 0) →
+        (∀ (ti : Nat) (t : LTable), s.ltables[ti]? = some t → t.overflows.size = 0) →
+        hitSum th x = rangeSum (tabF fb r1 r2 (nblocks * BLOCK) (b * BLOCK + x)) nS (fb.primes.size - nS)) := by
+  have hrecOK := hrec.1.ok
+  obtain ⟨hb0, hn0, _, hinv0⟩ := new_spec hfb hr hrecOK hnS h0
+  obtain ⟨hinv1, hb1, _, _⟩ := runBlocks_spec hfb hnS b 0 s0 s1 hinv0 h1
+  obtain ⟨hinv2, _, hb2, _, _, ht2, hlt2, _⟩ := sieveBlock_spec hfb hnS hinv1 h2
+  obtain ⟨et, elt⟩ := runBlocks_tables fb b s0 s1 h1
+  have etab : s.tables = s0.tables := ht2.trans et
+  have eltab : s.ltables = s0.ltables := hlt2.trans elt
+  have hblk : s.blkNo = b := by rw [hb2, hb1, hb0]; omega
+  obtain ⟨maxprime, hmax, hts, hlts⟩ := hinv2.tsize
+  obtain ⟨hT0, hL0⟩ := new_shape hrec h0
+  rw [← etab] at hT0
+  rw [← eltab] at hL0
+  have hndT : ∀ (tidx idx1 : Nat), fb.ibl[tidx + 16]? = some idx1 → ∀ pidx, idx1 ≤ pidx →
+      (offsL fb r1 r2 (nblocks * BLOCK) pidx).Nodup := fun tidx idx1 hi pidx hle =>
+    offsL_nodup hfb hr hd (fun p hp => big_of_class hfb (by omega) hi hle hp)
+  have hndV : ∀ (tidx idx1 : Nat), fb.ibl[tidx + 19]? = some idx1 → ∀ pidx, idx1 ≤ pidx →
+      (offsV fb r1 r2 (nblocks * BLOCK) pidx).Nodup := fun tidx idx1 hi pidx hle =>
+    offsV_nodup hfb hr hd (fun p hp => big_of_class hfb (by omega) hi hle hp)
+  have hTL : s.tables.size = 0 → s.ltables.size = 0 := by omega
+  intro x hx'
+  have hxB : x < BLOCK := by simp only [BLOCK]; exact hx'
+  have hcol := allClassSum_collapse (interval := nblocks * BLOCK) (X := s.blkNo * BLOCK + x) hfb hr hnS hmax hts hlts
+    (offsL fb r1 r2 (nblocks * BLOCK)) (offsV fb r1 r2 (nblocks * BLOCK))
+    (fun pidx p o1 o2 hp h1 h2 => by
+      obtain ⟨o1', o2', h1', h2', hl1, hl2⟩ := hr _ _ hp
+      rw [h1] at h1'; rw [h2] at h2'
+      have := Option.some.inj h1'; subst this
+      have := Option.some.inj h2'; subst this
+      exact mem_offsL hfb hp h1 h2 hl1 hl2)
+    (fun pidx p o1 o2 hp h1 h2 => by
+      obtain ⟨o1', o2', h1', h2', hl1, hl2⟩ := hr _ _ hp
+      rw [h1] at h1'; rw [h2] at h2'
+      have := Option.some.inj h1'; subst this
+      have := Option.some.inj h2'; subst this
+      exact mem_offsV hfb hp h1 h2 hl1 hl2)
+  rw [hblk] at hcol
+  constructor
+  · have := tableHits_rel (fun a b => a ≤ b) List.Sublist (le_refl 0) (fun a b c d h1 h2 => Nat.add_le_add h1 h2)
+      (x := x) (fun a b m hab => hitSum_sublist (hab.map m) x) hT0.sub hL0.sub (by omega) hTL hndT hndV hxB hth
+    rw [hblk, hcol] at this
+    exact this
+  · intro hzT hzL
+    have := tableHits_rel (fun a b => a = b) Eq rfl (fun a b c d h1 h2 => by rw [h1, h2])
+      (x := x) (fun a b m hab => by rw [hab]) (hT0.eq hzT) (hL0.eq hzL) (by omega) hTL hndT hndV hxB hth
+    rw [hblk, hcol] at this
+    exact this
+
+/-- `accumulator_spec_large`: the full closed form for ANY factor-base size (size-class tables and `SieveTableLarge`)
+on the path `Sieve::new` (fresh tables, or recycled tables of the same `nblocks`) → `b < nblocks` rounds →
+`sieve_block()`, when no table has lost an entry (`n_overflows = 0` in the size-class tables, empty overflow vector in
+the large tables) and the two roots of every prime ≥ 32768 differ: byte `x` of block `b` is the sum of `bitlen p` over
+the non-skipped primes `p < 32768` with a root at `x` (once per distinct root) plus the sum of `bitlen p` over ALL
+primes `p ≥ 32768` with `(b·32768 + x) mod p ∈ {r1, r2}` — exactly in the checked profile, modulo 256 in release. -/
+theorem accumulator_spec_large (dbg : Bool) (fb : FB) (hfb : fb.WF) (r1 r2 : Array Nat) (hr : RootsOK fb r1 r2)
+    (hd : RootsDistinct fb r1 r2) (offset : Int) (nblocks : Nat) (recycled : Option (Array Table × Array LTable))
+    (hrec : RecycledLens nblocks recycled)
+    (s0 s1 s : State) (h0 : Sieve.new offset nblocks fb r1 r2 recycled = some s0)
+    (b : Nat) (hb : b < nblocks) (h1 : runBlocks fb b s0 = some s1) (h2 : sieveBlock fb s1 = some s)
+    (nS : Nat) (hnS : fb.ibl[16]? = some nS)
+    (hov : ∀ (ti : Nat) (t : Table), s.tables[ti]? = some t → t.nOverflows = 0)
+    (hovL : ∀ (ti : Nat) (t : LTable), s.ltables[ti]? = some t → t.overflows.size = 0)
+    (blk : Array Nat) (h : blkOf dbg fb s = some blk) :
+    ∀ x, x < 32768 →
+      byteAt blk x % 256 = (rangeSum (rootF fb r1 r2 b x) s.idxskip (2 * nS - s.idxskip) +
+        rangeSum (tabF fb r1 r2 (nblocks * BLOCK) (b * BLOCK + x)) nS (fb.primes.size - nS)) % 256 ∧
+      (dbg = true → byteAt blk x = rangeSum (rootF fb r1 r2 b x) s.idxskip (2 * nS - s.idxskip) +
+        rangeSum (tabF fb r1 r2 (nblocks * BLOCK) (b * BLOCK + x)) nS (fb.primes.size - nS)) := by
+  obtain ⟨th, hth, _, hx⟩ := accumulator_spec_partial dbg fb hfb r1 r2 hr offset nblocks recycled hrec.1.ok s0 s1 s h0 b
+    h1 h2 nS hnS blk h
+  intro x hx'
+  have hsum := (tableHits_closed_gen hfb hr hd hrec h0 hb h1 h2 hnS hth x hx').2 hov hovL
+  have := hx x hx'
+  rw [hsum] at this
+  exact this
+
+/-- non-vacuity of `accumulator_spec_large` / `accumulator_no_overflow_new`: a factor base with a 16-bit, a 17-bit and a
+19-bit prime (three size-class tables, one large table), `new` and `sieve_block` return and nothing is lost. -/
+example : ((Sieve.new 0 1 (FB.ofPrimes #[3, 5, 32771, 65537, 262147]) #[1, 2, 7, 65000, 100] #[2, 3, 9, 70, 20000]
+      none).bind fun s0 => (sieveBlock (FB.ofPrimes #[3, 5, 32771, 65537, 262147]) s0).map fun s =>
+      (s.tables.size, s.ltables.size, s.tables.all (fun t => t.nOverflows == 0),
+        s.ltables.all (fun t => t.overflows.size == 0))) = some (3, 1, true, true) := by
+  decide +kernel
+
+/-- `accumulator_no_overflow_new`: `accumulator_no_overflow` for ANY factor-base size and WITHOUT any hypothesis on
+the overflow counters, on the path `Sieve::new → b < nblocks rounds → sieve_block()`: if at every position `x` the
+primes with a root at `x` — non-skipped primes below the block size and all primes ≥ 32768 — belong to a finite set of
+primes dividing some `v ≠ 0` with `bitlen v + #primes ≤ 256` (the hypothesis of `log_sum_bound`), then no `+=` site of
+`sieve_block` overflows, both families of table loops included: the checked model returns whenever the release model
+does, with the same bytes; every byte is at most the closed form (bucket entries lost to an overflow are not added:
+each bucket holds a sublist of the registered entries), and equal to it when no table has lost an entry. -/
+theorem accumulator_no_overflow_new (fb : FB) (hfb : fb.WF) (r1 r2 : Array Nat) (hr : RootsOK fb r1 r2)
+    (hd : RootsDistinct fb r1 r2) (offset : Int) (nblocks : Nat) (recycled : Option (Array Table × Array LTable))
+    (hrec : RecycledLens nblocks recycled)
+    (s0 s1 s : State) (h0 : Sieve.new offset nblocks fb r1 r2 recycled = some s0)
+    (b : Nat) (hb : b < nblocks) (h1 : runBlocks fb b s0 = some s1) (h2 : sieveBlock fb s1 = some s)
+    (nS : Nat) (hnS : fb.ibl[16]? = some nS)
+    (blk0 : Array Nat) (hrel : blkOf false fb s = some blk0)
+    (hdiv : ∀ x, x < 32768 → ∃ (ps : Finset ℕ) (v : ℕ), (∀ p ∈ ps, p.Prime) ∧ v ≠ 0 ∧ (∀ p ∈ ps, p ∣ v) ∧
+      bitlen v + ps.card ≤ 256 ∧
+      ∀ i p o, (s.idxskip ≤ 2 * i ∨ 32768 ≤ p) → fb.primes[i]? = some p → (r1[i]? = some o ∨ r2[i]? = some o) →
+        (b * 32768 + x) % p = o → p ∈ ps) :
+    blkOf true fb s = some blk0 ∧
+      ∀ x, x < 32768 →
+        byteAt blk0 x ≤ rangeSum (rootF fb r1 r2 b x) s.idxskip (2 * nS - s.idxskip) +
+          rangeSum (tabF fb r1 r2 (nblocks * BLOCK) (b * BLOCK + x)) nS (fb.primes.size - nS) ∧
+        ((∀ (ti : Nat) (t : Table), s.tables[ti]? = some t → t.nOverflows = 0) →
+          (∀ (ti : Nat) (t : LTable), s.ltables[ti]? = some t → t.overflows.size = 0) →
+          byteAt blk0 x = rangeSum (rootF fb r1 r2 b x) s.idxskip (2 * nS - s.idxskip) +
+            rangeSum (tabF fb r1 r2 (nblocks * BLOCK) (b * BLOCK + x)) nS (fb.primes.size - nS)) := by
+  have hrecOK := hrec.1.ok
+  obtain ⟨hprev, hev⟩ := state_for_block hfb hr hrecOK h0 h1 h2 hnS
+  obtain ⟨hits, hh, _, hin, _, _, _⟩ := accumulator_hits_spec false fb s blk0 hrel
+  have hh' := hh
+  unfold allHits at hh'
+  simp only [Option.bind_eq_bind, Option.bind_eq_some_iff, Option.some.injEq] at hh'
+  obtain ⟨l, hl, th, hth, rfl⟩ := hh'
+  have htab := tableHits_closed_gen hfb hr hd hrec h0 hb h1 h2 hnS hth
+  have hnn := hfb.ibl_le _ _ hnS
+  have hbound : ∀ x, x < 32768 → ∃ (ps : Finset ℕ) (v : ℕ), (∀ p ∈ ps, p.Prime) ∧ v ≠ 0 ∧ (∀ p ∈ ps, p ∣ v) ∧
+      bitlen v + ps.card ≤ 256 ∧ hitSum (l ++ th) x ≤ ∑ p ∈ ps, bitlen p := by
+    intro x hx
+    obtain ⟨ps, v, hp, hv, hdv, hbd, hmem⟩ := hdiv x hx
+    refine ⟨ps, v, hp, hv, hdv, hbd, ?_⟩
+    rw [hitSum_append, smallHits_sum hfb hnS hev hprev (by simpa [BLOCK] using hx) hl,
+      ← Finset.sum_filter_add_sum_filter_not ps (fun p => p < 32768) bitlen]
+    refine add_le_add (smallSum_le hfb hnS hev hprev _ ?_) (le_trans (htab x hx).1 (tabSum_le hfb hr _ ?_))
+    · intro i p hge hi hpi hpos
+      have hps := prime_small hfb hnS (k := 2 * i) (by omega) (by
+        have : (2 * i) / 2 = i := by omega
+        rw [this]; exact hpi)
+      refine Finset.mem_filter.2 ⟨?_, hps⟩
+      obtain ⟨o1, o2, ho1, ho2, _⟩ := hr i p hpi
+      have e0 : (2 * i) / 2 = i := by omega
+      have e1 : (2 * i + 1) / 2 = i := by omega
+      rw [slotF_eq_rootF hfb hnS hprev (by omega) hge, slotF_eq_rootF hfb hnS hprev (by omega) (by omega)] at hpos
+      unfold rootF at hpos
+      simp only [e0, e1, hpi, ho1, ho2] at hpos
+      by_cases c0 : ((2 * i) % 2 = 0 ∨ o1 ≠ o2) ∧ (b * BLOCK + x) % p = (if (2 * i) % 2 = 0 then o1 else o2)
+      · have m0 : (2 * i) % 2 = 0 := by omega
+        simp only [m0, if_true] at c0
+        exact hmem i p o1 (Or.inl hge) hpi (Or.inl ho1) (by simpa [BLOCK] using c0.2)
+      · rw [if_neg c0, Nat.zero_add] at hpos
+        by_cases c1 : ((2 * i + 1) % 2 = 0 ∨ o1 ≠ o2) ∧
+            (b * BLOCK + x) % p = (if (2 * i + 1) % 2 = 0 then o1 else o2)
+        · have m1 : ¬ (2 * i + 1) % 2 = 0 := by omega
+          simp only [m1, if_false] at c1
+          exact hmem i p o2 (Or.inl hge) hpi (Or.inr ho2) (by simpa [BLOCK] using c1.2)
+        · rw [if_neg c1] at hpos; omega
+    · intro i p hge hpi hpos
+      have hbig : 32768 ≤ p := big_of_class hfb (le_refl 16) hnS hge hpi
+      refine Finset.mem_filter.2 ⟨?_, by omega⟩
+      obtain ⟨o1, o2, ho1, ho2, _⟩ := hr i p hpi
+      unfold tabF at hpos
+      simp only [hpi, ho1, ho2] at hpos
+      by_cases c : b * BLOCK + x < nblocks * BLOCK ∧ ((b * BLOCK + x) % p = o1 ∨ (b * BLOCK + x) % p = o2)
+      · rcases c.2 with c1 | c2
+        · exact hmem i p o1 (Or.inr hbig) hpi (Or.inl ho1) (by simpa [BLOCK] using c1)
+        · exact hmem i p o2 (Or.inr hbig) hpi (Or.inr ho2) (by simpa [BLOCK] using c2)
+      · rw [if_neg c] at hpos; omega
+  obtain ⟨blk, e1, e2, e3⟩ := accumulator_no_overflow_partial fb s (l ++ th) hh hin hbound
+  rw [hrel] at e2
+  have := Option.some.inj e2
+  subst this
+  refine ⟨e1, ?_⟩
+  intro x hx
+  have hcl := class_loops_cover fb hfb r1 r2 hr offset nblocks recycled hrecOK s0 s1 s h0 b h1 h2 nS hnS l hl x hx
+  constructor
+  · rw [e3 x, hitSum_append, hcl]
+    exact Nat.add_le_add_left (htab x hx).1 _
+  · intro hz hzL
+    rw [e3 x, hitSum_append, hcl, (htab x hx).2 hz hzL]
 
 /-- `accumulator_no_overflow_small`: for factor bases whose primes are all below the block size, under the hypothesis of
 `log_sum_bound` — at every position `x` the non-skipped primes with a root at `x` (true roots: they divide the
